@@ -72,6 +72,13 @@ class Retry:
                 if g < self.retry - 40 or g > self.retry + SLACK:
                     bad.append("stalled connect retried after %d ms (connect-retry %d ms)" % (g, self.retry))
                     break
+        if "attempts_after_first" in ex:
+            window, want = ex["attempts_after_first"]
+            t1 = dials[0] if dials else 0
+            later = [d for d in dials[1:] if d <= t1 + window + 150]
+            if len(later) < want:
+                bad.append("after the connection was closed in OpenSent, %d outbound attempt(s) in %d ms of stalled connects "
+                           "(connect-retry %d ms: at least %d expected)" % (len(later), window, self.retry, want))
         if ex.get("established_twice"):
             est = [cb["at"] for cb in r["cbs"] if cb["name"] == "OnEstablished" and cb["ph"] == "enter"]
             if len(est) < 2:
@@ -120,6 +127,14 @@ def items(rng, tier):
                          [["sleep", 3 * retry + 150], ["stall", False], ["accept", "c1", idle + 2 * retry + 1200]] + handshake("c1") + [["sleep", 30]],
                          idle, retry, expect={"stall_window": (0, 3 * retry + 100), "established_by": (3 * retry + 150, idle + 2 * retry + 2 * SLACK)},
                          start_stalled=True))
+        sid += 1
+        # the connection is closed in OpenSent (Active), and the attempts that follow stall: each is abandoned after
+        # connect-retry and a new one made
+        out.append(Retry(sid, "closed-in-opensent-then-stalled",
+                         [["accept", "c1", 1500], ["recv", "c1", 1, 1500], ["stall", True], ["close", "c1"], ["recv_eof", "c1", 800],
+                          ["fullclose", "c1"], ["sleep", 4 * retry + 200], ["stall", False], ["drain"],
+                          ["accept", "c2", idle + 2 * retry + 1200]] + handshake("c2") + [["sleep", 30]],
+                         idle, retry, expect={"attempts_after_first": (4 * retry + 200, 3)}))
         sid += 1
         # inbound session ends: dial at once, new inbound accepted
         out.append(Retry(sid, "inbound-ends-then-redial",
